@@ -71,6 +71,7 @@ package pebble
 //@   ensures [C04.switch.durable] result == nil ==> fs.dCur[dir] == old(fs.updName[dir]) && fs.vCur[dir] == old(fs.updName[dir])
 //@   ensures [C04.switch.keeps] forall p string :: p != pjoin(dir, "current.updating") && old(fs.dHas[p]) && old(fs.vHas[p]) ==> fs.dHas[p]
 //@   ensures forall d string :: d != dir ==> fs.dCur[d] == old(fs.dCur[d])
+//@   ensures forall p string :: p != pjoin(dir, "current.updating") && old(fs.vHas[p]) ==> fs.vHas[p]
 //@   ensures [C04.switch.either] fs.dCur[dir] == old(fs.dCur[dir]) || fs.dCur[dir] == old(fs.updName[dir]) || fs.dCur[dir] == old(fs.vCur[dir])
 //@   ensures forall q string :: old(world.syncedPath[q]) ==> world.syncedPath[q]
 //@   modifies fs.vCur, fs.vHas, fs.dHas, fs.dCur, world.syncedPath
@@ -97,11 +98,13 @@ package pebble
 //@   ensures [C04.cleanup.current] fs.dCur[dir] == old(fs.dCur[dir]) && fs.vCur[dir] == old(fs.vCur[dir])
 //@   ensures [C04.cleanup.keeps.v] old(fs.vHas[pjoin(dir, fs.vCur[dir])]) ==> fs.vHas[pjoin(dir, fs.vCur[dir])]
 //@   ensures [C04.cleanup.keeps.d] old(fs.dHas[pjoin(dir, fs.vCur[dir])]) ==> fs.dHas[pjoin(dir, fs.vCur[dir])]
+//@   ensures [C04.cleanup.dir] old(fs.vHas[dir]) ==> fs.vHas[dir]
 //@   ensures forall q string :: (fs.vHas[q] ==> old(fs.vHas[q])) && (fs.dHas[q] ==> old(fs.dHas[q]))
 //@   modifies fs.vHas, fs.dHas, fs.vCur, fs.dCur
 //@   loop 0 invariant -1 <= rangeindex && rangeindex < len(files) && err == nil && dbdir == old(fs.vCur[dir])
 //@   loop 0 invariant fs.dCur[dir] == old(fs.dCur[dir]) && fs.vCur[dir] == old(fs.vCur[dir])
 //@   loop 0 invariant old(fs.vHas[pjoin(dir, fs.vCur[dir])]) ==> fs.vHas[pjoin(dir, fs.vCur[dir])]
 //@   loop 0 invariant old(fs.dHas[pjoin(dir, fs.vCur[dir])]) ==> fs.dHas[pjoin(dir, fs.vCur[dir])]
+//@   loop 0 invariant old(fs.vHas[dir]) ==> fs.vHas[dir]
 //@   loop 0 invariant forall q string :: (fs.vHas[q] ==> old(fs.vHas[q])) && (fs.dHas[q] ==> old(fs.dHas[q]))
 
